@@ -9,6 +9,7 @@ import PromVerif.Drv.Expo
 import PromVerif.Drv.C19
 import PromVerif.Drv.C17
 import PromVerif.Drv.C14
+import PromVerif.Drv.C18
 namespace PromVerif.Drv
 
 def dispatch (m : String) (args : List String) : String :=
@@ -24,6 +25,7 @@ def dispatch (m : String) (args : List String) : String :=
   | "c19" => C19.handle args
   | "c17" => C17.handle args
   | "om" => C14.handle args
+  | "c18" => C18.handle args
   | _ => "err unknown-module"
 
 end PromVerif.Drv
